@@ -81,11 +81,11 @@ LookupFails(r, s, p) == LET st == StepsOf(r, s)[p] IN st.cl_id # 0 /\ ~LayerExis
 OutcomeLast(r, s, p) == IF LastAtt(r, s) >= 2 THEN StepsOf(r, s)[p].o2 ELSE StepsOf(r, s)[p].o
 StepPasses(r, s, p) == LET st == StepsOf(r, s)[p]  o == OutcomeLast(r, s, p) IN
    /\ st.def /\ ~StepHookRaised(r, s, p) /\ ~LookupFails(r, s, p)
-   /\ (o \in {"pass", "nest_pass"} \/ (o \in {"pending", "nest_pending"} /\ Wip(r, s)))
+   /\ (o \in {"pass", "abort", "nest_pass"} \/ (o \in {"pending", "nest_pending"} /\ Wip(r, s)))
 
 \* ---------------------------------------------------------------- "something went wrong", from source events only
 BadEvent(r, e) ==
-   \/ e.k = "step" /\ e.outcome \in {"fail", "skip_fail", "error", "kbd", "nest_fail", "nest_error", "nest_undef"}
+   \/ e.k = "step" /\ e.outcome \in {"fail", "skip_fail", "error", "kbd", "abort", "nest_fail", "nest_error", "nest_undef"}      \* (abort: the run is aborted)
    \/ e.k = "step" /\ e.outcome \in {"pending", "nest_pending"} /\ ~Wip(r, e.el)
    \/ e.k = "step" /\ LookupFails(r, e.el, e.pos)
    \/ e.k = "hook" /\ e.raised
@@ -96,7 +96,7 @@ BadEvent(r, e) ==
 UndefinedStatusSeen(r) == \E s \in Scens(r) : Sel(r, s) /\ \E p \in DOMAIN r.end.step_status[s] :
                               r.end.step_status[s][p] \in {"undefined", "untested_undefined"}
 Wrong(r) == (\E i \in Ix(r) : BadEvent(r, Ev(r, i))) \/ UndefinedStatusSeen(r)
-AbortSeen(r) == \E i \in Ix(r) : \/ Ev(r, i).k = "step" /\ Ev(r, i).outcome = "kbd"
+AbortSeen(r) == \E i \in Ix(r) : \/ Ev(r, i).k = "step" /\ Ev(r, i).outcome \in {"kbd", "abort"}
                                  \/ Ev(r, i).k = "hook" /\ Ev(r, i).name = "before_all" /\ Ev(r, i).raised
 Cut(r) == AbortSeen(r) \/ (r.cfg.stop /\ Wrong(r))      \* the run may have been cut short (observed, not from the verdict)
 Ran(r) == r.end.ran
@@ -156,7 +156,7 @@ C01Exit(r) == IF (r.exit # 0) # Wrong(r) THEN {"C01.exit_code"} ELSE {}
 \* ======================================================================= C02
 MapStatus(r, s, p) == LET o == OutcomeLast(r, s, p) IN
    IF LookupFails(r, s, p) THEN "error"
-   ELSE CASE o = "pass" -> "passed" [] o \in {"fail", "skip_fail"} -> "failed" [] o \in {"error", "kbd"} -> "error"
+   ELSE CASE o \in {"pass", "abort"} -> "passed" [] o \in {"fail", "skip_fail"} -> "failed" [] o \in {"error", "kbd"} -> "error"
           [] o = "pending" -> (IF Wip(r, s) THEN "pending_warn" ELSE "pending")
           [] o = "skip" -> "skipped"
           \* the step delegates to a sub-step through context.execute_steps(): passes iff the sub-step passes
@@ -360,7 +360,7 @@ C12(r) ==
    \* no hooks for elements that are neither selected by their own tags nor contain a selected scenario
    \* ... nor for elements below a feature / rule that one of its hooks excluded at run time
    \cup (IF \E i \in Ix(r) : LET e == Ev(r, i) IN IsHook(e) /\ e.el # 0 /\
-              \/ (~r.x.tmatch[e.el] /\ (\A s \in ScensUnder(r, e.el) : ~r.x.tmatch[s]))            \* (hooks of containers go by tags, not by --name)
+              \/ (~r.x.tmatch[e.el] /\ (\A d \in Desc(r, e.el) : ~r.x.tmatch[d]))      \* (by tags, not by --name; any element below counts: rule, outline, scenario)
               \/ (Kind(r, e.el) = "scenario" /\ ~r.x.match[e.el])
               \/ r.x.askip[e.el]
          THEN {"C12.not_for_skipped"} ELSE {})
